@@ -47,7 +47,7 @@ class Path:
         self.light = None
         self.lenvars = {}
 
-    def assume(self, c):
+    def assume(self, c, seqfree=False):
         if isinstance(c, SymBool):
             c = c.e
         if isinstance(c, bool):
@@ -56,7 +56,7 @@ class Path:
             return
         self.pc.append(c)
         self.solver.add(c)
-        if self.light is None and _mentions_seq(c):
+        if self.light is None and not seqfree and _mentions_seq(c):
             self.light = z3.Solver()
             self.light.set("timeout", 3000)
             for old in self.pc[:-1]:
